@@ -67,6 +67,16 @@ CLAIMED = {
          "Trusted: CPython's ast parser, sa/terms.py (use-def reconstruction), sa/props/c02.py. Assumes labels of absent "
          "keywords do not collide with stored labels (quality of PRF/PRP, not of this code) and that KeyError/IndexError are "
          "the exceptions container loads raise. Values are not computed."),
+ "C06": ("dominance (sort-before-build) in the table builders + provenance of slot-index terms (use-def) in _Enc",
+         "Decides both mechanisms the property names. (1) In the six schemes that specify it, every dictionary of the encrypted "
+         "database reaches the EDB constructor from a builder classmethod in which a sort by the pair's first component "
+         "dominates the dict construction from the same list, with no reordering in between. (2) Every store into an array of "
+         "PiPtr, Pi2Lev and SSE1 has an index term that derives from an element popped from random.sample over exactly the free "
+         "range, or from a PRP keyed with the master key applied to a counter; DP17 draws the bucket with random.choice and "
+         "shuffles each bucket before encrypting it. A counter, len(), range variable or ordered list as slot source is "
+         "reported. Structural, all paths, nothing executed.",
+         "Trusted: CPython's ast parser, sa/terms.py, sa/props/c06.py (accepted sources of randomness). The statistical "
+         "quality of `random` / the PRP and the probability bound of the property are not examined."),
 }
 NA_REASON = "check under construction in this session (see DESIGN.md section 3); not yet registered"
 NA = {}
